@@ -43,7 +43,7 @@ inline std::string exprs(const std::vector<std::unique_ptr<Expression>>& v) {
 
 inline std::string expr(const Expression* e) {
     if (!e) return "-";
-    if (auto x = dynamic_cast<const LiteralExpression*>(e)) return "(lit " + hx(x->value) + " " + x->literalType + ")";
+    if (auto x = dynamic_cast<const LiteralExpression*>(e)) return "(lit " + hx(x->value) + " " + x->literalType + " " + pos(*e) + ")";
     if (dynamic_cast<const NullLiteralExpression*>(e)) return "(null " + pos(*e) + ")";
     if (auto x = dynamic_cast<const VariableExpression*>(e)) return "(var " + x->name + " " + pos(*e) + ")";
     if (auto x = dynamic_cast<const BinaryExpression*>(e))
